@@ -1,29 +1,300 @@
 import RotondaModel.Model.HttpServer
+import RotondaModel.Proofs.HttpServerWire
 import RotondaModel.Proofs.HttpServer
-/-! Property theorems of the HttpServer area (production HTTP server; attached to C12). -/
+/-!
+Property theorems of the HttpServer area: property C12 ("every HTTP request gets a well-formed response;
+bad ones get 4xx, not a crash") on the PRODUCTION server, i.e. for what a client sees on a TCP connection.
+
+`serve c stream` is everything the server sends on a connection on which the client sends `stream`
+(Model/HttpServer.lean: httparse / hyper / `http::Uri` framing, `Http.handle`, hyper's response framing).
+-/
 namespace Rotonda.HttpServer
 open Rotonda.Http
 
+/-! ### One response per request, in request order, for every request sequence -/
+
+/-- **Prefix law (any number of requests).** If the client's bytes start with the serialisations of
+    requests `rs` that each get an answer and keep the connection (`outcome = (w, true)`), then the
+    server's bytes start with exactly those answers, one per request, in request order, and what follows
+    is what a connection yields on which only the remaining bytes `t` arrive. -/
+theorem HS_one_response_per_request_in_order (c : Cfg) (rs : List (RawHead × WResp)) (t : Bytes)
+    (hrs : ∀ p ∈ rs, HeadWF p.1 ∧ (serHead p.1).length ≤ maxBuf ∧ outcome c p.1 = some (p.2, true)) :
+    ∃ k, serve c ((rs.map fun p => serHead p.1).flatten ++ t)
+      = (rs.map fun p => Out.resp p.2) ++ serveAux c (k + 1) (lastV rs true) t := by
+  have hl := flatten_ser_length rs (fun p hp => (hrs p hp).1)
+  refine ⟨((rs.map fun p => serHead p.1).flatten ++ t).length - rs.length, ?_⟩
+  unfold serve
+  rw [serveAux_prefix c rs t hrs _ true (by simp only [List.length_append] at *; omega)]
+  congr 2
+  simp only [List.length_append] at *; omega
+
+/-- **Pipeline, then a request that ends the connection, then anything.** Every request is answered
+    once, in order; nothing that follows the closing request is ever answered. -/
+theorem HS_pipeline_then_close (c : Cfg) (rs : List (RawHead × WResp)) (z : RawHead) (wz : WResp) (junk : Bytes)
+    (hrs : ∀ p ∈ rs, HeadWF p.1 ∧ (serHead p.1).length ≤ maxBuf ∧ outcome c p.1 = some (p.2, true))
+    (hz : HeadWF z ∧ (serHead z).length ≤ maxBuf ∧ outcome c z = some (wz, false)) :
+    serve c ((rs.map fun p => serHead p.1).flatten ++ (serHead z ++ junk))
+      = (rs.map fun p => Out.resp p.2) ++ [.resp wz] := by
+  obtain ⟨k, hk⟩ := HS_one_response_per_request_in_order c rs (serHead z ++ junk) hrs
+  rw [hk, serveAux_outcome c z hz.1 hz.2.1 k _ junk wz false hz.2.2]; simp
+
+/-- **Keep-alive, then the client leaves** (possibly in the middle of a further head): exactly one
+    answer per complete request. -/
+theorem HS_pipeline_then_leave (c : Cfg) (rs : List (RawHead × WResp)) (t : Bytes)
+    (hrs : ∀ p ∈ rs, HeadWF p.1 ∧ (serHead p.1).length ≤ maxBuf ∧ outcome c p.1 = some (p.2, true))
+    (hl : t.length ≤ maxBuf) (ht : parseHead t = .more) :
+    serve c ((rs.map fun p => serHead p.1).flatten ++ t) = rs.map fun p => Out.resp p.2 := by
+  obtain ⟨k, hk⟩ := HS_one_response_per_request_in_order c rs t hrs
+  rw [hk, serveAux_more c k _ t hl ht]; simp
+
+/-- **A malformed request** (one hyper's parser rejects with `code`) after any number of good ones:
+    the good ones are answered in order, the malformed one gets hyper's `code` (400 / 414 / 431) —
+    or, if the bytes are the HTTP/2 preface, the switch to HTTP/2 — and the connection ends: whatever
+    the rest of the bytes is, nothing else is sent. -/
+theorem HS_malformed_answered_and_closed (c : Cfg) (rs : List (RawHead × WResp)) (b : Bytes) (code : Nat)
+    (hrs : ∀ p ∈ rs, HeadWF p.1 ∧ (serHead p.1).length ≤ maxBuf ∧ outcome c p.1 = some (p.2, true))
+    (hl : b.length ≤ maxBuf) (hb : parseHead b = .bad code) :
+    serve c ((rs.map fun p => serHead p.1).flatten ++ b)
+      = (rs.map fun p => Out.resp p.2) ++ [onParseError (lastV rs true) code b] := by
+  obtain ⟨k, hk⟩ := HS_one_response_per_request_in_order c rs b hrs
+  rw [hk, serveAux_bad c k _ b code hl hb]
+
+/-- bytes that do not start like a request (not a token character, not a line end) are a 400 -/
+theorem HS_garbage_400 (b : Nat) (r : Bytes) (h1 : isTchar b = false) (h2 : b ≠ 13) (h3 : b ≠ 10) :
+    parseHead (b :: r) = .bad 400 := by
+  unfold parseHead
+  rw [skipEmptyLines.eq_def]
+  simp [h2, h3, parseMethod, h1]
+
+/-- which requests certainly flow: an HTTP/1.1 request without `Transfer-Encoding`, `Content-Length`,
+    `Connection`, `Expect` headers has no body and keeps the connection … -/
+theorem HS_plain_request_flows (c : Cfg) (h : RawHead) (ok : HeadOk h)
+    (hp : ∀ x ∈ h.headers, isFraming x.name = false) (h11 : h.v11 = true)
+    (p : Bytes) (q : Option Bytes) (ht : parseTarget h.target = .ok p q) (r : Resp)
+    (ha : answer c { method := h.method, path := p, query := q, v11 := true, keepAlive := true, body := .none,
+                     expect := false, acceptEnc := firstHeader hAcceptEncoding h.headers } = .ok r) :
+    outcome c h = some ({ v11 := true, status := r.status, gzip := r.gzip, connKA := false,
+                          headOnly := h.method == sHEAD, reason := r.reason }, true) := by
+  unfold outcome
+  rw [interpret_plain h ok hp p q ht]
+  simp only [h11, ha, if_true]
+  simp [frame]
+
+/-- … and the same request with `Connection: close` as its last header is answered and ends it. -/
+theorem HS_closing_request_ends (c : Cfg) (h : RawHead) (ok : HeadOk h) (pl : List Hdr) (cl : Hdr)
+    (hh : h.headers = pl ++ [cl]) (hp : ∀ x ∈ pl, isFraming x.name = false)
+    (hc : cl.name.map lower = hConnection) (hv : connectionHas cl.value sClose = true) (h11 : h.v11 = true)
+    (p : Bytes) (q : Option Bytes) (ht : parseTarget h.target = .ok p q) (r : Resp)
+    (ha : answer c { method := h.method, path := p, query := q, v11 := true, keepAlive := false, body := .none,
+                     expect := false, acceptEnc := firstHeader hAcceptEncoding h.headers } = .ok r) :
+    outcome c h = some ({ v11 := true, status := r.status, gzip := r.gzip, connKA := false,
+                          headOnly := h.method == sHEAD, reason := r.reason }, false) := by
+  unfold outcome
+  rw [interpret_closing h ok pl cl hh hp hc hv h11 p q ht]
+  simp only [ha, if_true]
+  simp [frame]
+
+/-! ### Every response on any connection obeys C12's laws -/
+
+/-- **Any bytes at all.** Whatever the client sends, every response on the connection is the framed
+    answer of `handle_request` to a request hyper accepted: its status is the one C12 demands
+    (`specStatus`: 405 non-GET, 200 fixed paths, 404 nobody responsible, else 400 iff malformed for the
+    first responsible processor), one of 200 / 400 / 404 / 405, a 400 carries a reason, and the status
+    line speaks the request's HTTP version. -/
+theorem HS_every_response_lawful (c : Cfg) (stream : Bytes) (w : WResp) (hw : Out.resp w ∈ serve c stream) :
+    ∃ m : Msg, w.status = specStatus c.d c.reg (toReq m) ∧ (w.status = 400 → w.reason = true)
+      ∧ (w.status = 200 ∨ w.status = 400 ∨ w.status = 404 ∨ w.status = 405)
+      ∧ w.v11 = m.v11 ∧ (m.method ≠ sGET → w.status = 405 ∧ w.gzip = false) := by
+  obtain ⟨h, m, r, _, ha, hf⟩ := serveAux_resp_mem c w _ _ _ hw
+  have hs := answer_status c m r ha
+  subst hf
+  refine ⟨m, hs.1, hs.2, ?_, rfl, ?_⟩
+  · have := specStatus_mem c.d c.reg (toReq m)
+    simp only [frame]; rw [hs.1]; exact this
+  · intro hm
+    rw [answer_non_get c m hm] at ha
+    cases ha; simp [frame, r405]
+
+/-- **No request can make the server drop a connection** once the four handler sites of C12 are
+    repaired (they are in this tree): no byte stream yields a dropped connection. -/
+theorem HS_no_drop_repaired (c : Cfg) (hv : c.v.http = Http.repaired) (stream : Bytes) (s : Site) :
+    Out.dropped s ∉ serve c stream := by
+  intro hm
+  obtain ⟨m, hp⟩ := serveAux_dropped_mem c s _ _ _ hm
+  obtain ⟨r, hr⟩ := answer_no_panic c m hv
+  rw [hr] at hp; cases hp
+
+/-! ### gzip only when the client accepts it -/
+
+/-- The clause at full strength: a gzip-encoded response only to a request whose (first)
+    `Accept-Encoding` makes gzip acceptable (RFC 9110 §12.5.3, `acceptsGzipRfc`). -/
+def HS_gzip_only_if_accepted_full (v : Variant) : Prop :=
+  ∀ (d : Deps) (reg : Registry) (h : RawHead) (m : Msg) (r : Resp),
+    interpret h = .ok m → answer { v := v, d := d, reg := reg } m = .ok r → r.gzip = true →
+      acceptsGzipRfc m.acceptEnc = true
+
+/-- **As written: what the code does.** gzip iff GET, `compress_responses`, and the first
+    `Accept-Encoding` value is readable and *contains the substring* `gzip`. -/
+theorem HS_gzip_as_written (c : Cfg) (hv : c.v.aeGzip = true) (stream : Bytes) (w : WResp)
+    (hw : Out.resp w ∈ serve c stream) :
+    ∃ m : Msg, w.gzip = true ↔ (m.method = sGET ∧ c.reg.compress = true ∧ acceptsGzip m.acceptEnc = true) := by
+  obtain ⟨h, m, r, _, ha, hf⟩ := serveAux_resp_mem c w _ _ _ hw
+  subst hf
+  exact ⟨m, answer_gzip_as_written c m r hv ha⟩
+
 /-- `Accept-Encoding: gzip;q=0` -/
 def aeGzipQ0 : Bytes := [103, 122, 105, 112, 59, 113, 61, 48]
+/-- `Accept-Encoding: xgzipx` -/
+def aeXgzipx : Bytes := [120, 103, 122, 105, 112, 120]
 
-/-- `GET /status HTTP/1.1␍␊Accept-Encoding: gzip;q=0␍␊␍␊` -/
-def witnessQ0 : Bytes :=
+/-- `GET /status HTTP/1.1␍␊Accept-Encoding: ` value `␍␊␍␊` -/
+def witnessAe (ae : Bytes) : Bytes :=
   [71, 69, 84, 32, 47, 115, 116, 97, 116, 117, 115, 32, 72, 84, 84, 80, 47, 49, 46, 49, 13, 10,
-   65, 99, 99, 101, 112, 116, 45, 69, 110, 99, 111, 100, 105, 110, 103, 58, 32] ++ aeGzipQ0 ++ [13, 10, 13, 10]
+   65, 99, 99, 101, 112, 116, 45, 69, 110, 99, 111, 100, 105, 110, 103, 58, 32] ++ ae ++ [13, 10, 13, 10]
 
 def noDeps : Deps := { pfx := fun _ => .err, asn := fun _ => .err, community := fun _ => .err, fs := fun _ => .missing }
+def asWrittenV : Variant := { http := Http.repaired, aeGzip := true }
+def repairedV : Variant := { http := Http.repaired, aeGzip := false }
 
-/-- As written the server gzip-encodes the answer to a client that rules gzip out (`gzip;q=0`). -/
+/-- **Counterexample (code as written), through the listener:** the client rules gzip out
+    (`gzip;q=0`) and gets a gzip-encoded 200; likewise when `gzip` is only a substring of another token. -/
 theorem HS_gzip_q0_counterexample :
-    serve { v := { http := Http.repaired, aeGzip := true }, d := noDeps, reg := ⟨true, []⟩ } witnessQ0
-      = [.resp { v11 := true, status := 200, gzip := true, connKA := false, headOnly := false, reason := true }] := by
+    serve { v := asWrittenV, d := noDeps, reg := ⟨true, []⟩ } (witnessAe aeGzipQ0)
+      = [.resp { v11 := true, status := 200, gzip := true, connKA := false, headOnly := false, reason := true }]
+    ∧ acceptsGzipRfc (some aeGzipQ0) = false
+    ∧ serve { v := asWrittenV, d := noDeps, reg := ⟨true, []⟩ } (witnessAe aeXgzipx)
+      = [.resp { v11 := true, status := 200, gzip := true, connKA := false, headOnly := false, reason := true }]
+    ∧ acceptsGzipRfc (some aeXgzipx) = false := by
   decide
 
-/-- Repaired, the same request is answered unencoded. -/
-theorem HS_gzip_q0_repaired :
-    serve { v := { http := Http.repaired, aeGzip := false }, d := noDeps, reg := ⟨true, []⟩ } witnessQ0
-      = [.resp { v11 := true, status := 200, gzip := false, connKA := false, headOnly := false, reason := true }] := by
+theorem HS_gzip_only_if_accepted_counterexample : ¬ HS_gzip_only_if_accepted_full asWrittenV := by
+  intro h
+  have := h noDeps ⟨true, []⟩
+    { method := sGET, target := sStatus, v11 := true, headers := [⟨hAcceptEncoding, aeGzipQ0⟩] }
+    { method := sGET, path := sStatus, query := none, v11 := true, keepAlive := true, body := .none, expect := false,
+      acceptEnc := some aeGzipQ0 }
+    ⟨200, true, true⟩ (by decide) (by decide) rfl
+  revert this; decide
+
+/-- **Partial (code as written):** the clause holds for every request whose header does not contain
+    the substring `gzip` outside an acceptable `gzip` element. -/
+theorem HS_gzip_only_if_accepted_partial (d : Deps) (reg : Registry) (v : Variant) (hv : v.aeGzip = true)
+    (m : Msg) (r : Resp)
+    (guard : acceptsGzip m.acceptEnc = true → acceptsGzipRfc m.acceptEnc = true)
+    (ha : answer { v := v, d := d, reg := reg } m = .ok r) (hg : r.gzip = true) :
+    acceptsGzipRfc m.acceptEnc = true :=
+  guard ((answer_gzip_as_written _ m r hv ha).1 hg).2.2
+
+/-- **Repaired: the clause at full strength**, and exactly: gzip iff GET, `compress_responses` and gzip
+    acceptable. -/
+theorem HS_gzip_only_if_accepted_repaired (h : Http.Variant) :
+    HS_gzip_only_if_accepted_full { http := h, aeGzip := false } := by
+  intro d reg _ m r _ ha hg
+  exact ((answer_gzip_repaired _ m r rfl ha).1 hg).2.2
+
+theorem HS_gzip_repaired (c : Cfg) (hv : c.v.aeGzip = false) (stream : Bytes) (w : WResp)
+    (hw : Out.resp w ∈ serve c stream) :
+    ∃ m : Msg, w.gzip = true ↔ (m.method = sGET ∧ c.reg.compress = true ∧ acceptsGzipRfc m.acceptEnc = true) := by
+  obtain ⟨h, m, r, _, ha, hf⟩ := serveAux_resp_mem c w _ _ _ hw
+  subst hf
+  exact ⟨m, answer_gzip_repaired c m r hv ha⟩
+
+/-- the repaired server answers the witnesses unencoded, and still encodes for `gzip`, `gzip;q=0.5`, `*` -/
+theorem HS_gzip_repaired_witnesses :
+    serve { v := repairedV, d := noDeps, reg := ⟨true, []⟩ } (witnessAe aeGzipQ0)
+      = [.resp { v11 := true, status := 200, gzip := false, connKA := false, headOnly := false, reason := true }]
+    ∧ serve { v := repairedV, d := noDeps, reg := ⟨true, []⟩ } (witnessAe aeXgzipx)
+      = [.resp { v11 := true, status := 200, gzip := false, connKA := false, headOnly := false, reason := true }]
+    ∧ acceptsGzipRfc (some sGzip) = true
+    ∧ acceptsGzipRfc (some (sGzip ++ [59, 113, 61, 48, 46, 53])) = true
+    ∧ acceptsGzipRfc (some [42]) = true
+    ∧ acceptsGzipRfc (some [42, 59, 113, 61, 48]) = false
+    ∧ acceptsGzipRfc (some [105, 100, 101, 110, 116, 105, 116, 121]) = false
+    ∧ acceptsGzipRfc none = false := by
   decide
+
+/-! ### The body on the wire decodes to the handler's body -/
+
+/-- gzip as a dependency: compressing and decompressing give the bytes back (flate2; sampled by the
+    engine, which gunzips every encoded body) -/
+structure Codec where
+  gz : Bytes → Bytes
+  gunz : Bytes → Option Bytes
+  sound : ∀ b, gunz (gz b) = some b
+
+/-- the bytes after the response head: nothing for HEAD, else the (encoded) body;
+    `contentLength` is what the `content-length` header says -/
+def wireBody (k : Codec) (body : Bytes) (w : WResp) : Bytes :=
+  if w.headOnly then [] else if w.gzip then k.gz body else body
+def contentLength (k : Codec) (body : Bytes) (w : WResp) : Nat :=
+  (if w.gzip then k.gz body else body).length
+/-- what a client that honours `content-encoding` reads -/
+def decodeWire (k : Codec) (w : WResp) (wire : Bytes) : Option Bytes :=
+  if w.gzip then k.gunz wire else some wire
+
+/-- Unless the request was a HEAD, the `content-length` bytes after the head decode to exactly the body
+    the handler produced. -/
+theorem HS_body_decodes (k : Codec) (body : Bytes) (w : WResp) (hh : w.headOnly = false) :
+    (wireBody k body w).length = contentLength k body w ∧ decodeWire k w (wireBody k body w) = some body := by
+  unfold wireBody contentLength decodeWire
+  cases hg : w.gzip <;> simp [hh, k.sound]
+
+/-! ### Non-vacuity -/
+
+/-- `GET /status HTTP/1.1` + `Host: x` -/
+def exStatus : RawHead := { method := sGET, target := sStatus, v11 := true, headers := [⟨[72, 111, 115, 116], [120]⟩] }
+/-- `POST /nothing HTTP/1.1` (no headers) -/
+def exPost : RawHead := { method := [80, 79, 83, 84], target := [47, 110], v11 := true, headers := [] }
+/-- `GET /metrics HTTP/1.1` + `Connection: close` -/
+def exClose : RawHead := { method := sGET, target := sMetrics, v11 := true,
+                           headers := [⟨[67, 111, 110, 110, 101, 99, 116, 105, 111, 110], sClose⟩] }
+def exCfg : Cfg := { v := asWrittenV, d := noDeps, reg := ⟨true, [.tracer, .graph false]⟩ }
+def w200 : WResp := { v11 := true, status := 200, gzip := false, connKA := false, headOnly := false, reason := true }
+def w405 : WResp := { w200 with status := 405 }
+
+theorem exStatus_wf : HeadWF exStatus := by
+  refine ⟨by decide, by decide, by decide, by decide, ?_, by decide⟩
+  intro x hx
+  have : x = ⟨[72, 111, 115, 116], [120]⟩ := by simpa [exStatus] using hx
+  subst this
+  exact ⟨by decide, by decide, by decide, by decide, by decide⟩
+
+theorem exPost_wf : HeadWF exPost :=
+  ⟨by decide, by decide, by decide, by decide, by intro x hx; simp [exPost] at hx, by decide⟩
+
+theorem exClose_wf : HeadWF exClose := by
+  refine ⟨by decide, by decide, by decide, by decide, ?_, by decide⟩
+  intro x hx
+  have : x = ⟨[67, 111, 110, 110, 101, 99, 116, 105, 111, 110], sClose⟩ := by simpa [exClose] using hx
+  subst this
+  exact ⟨by decide, by decide, by decide, by decide, by decide⟩
+
+/-- the hypotheses of `HS_pipeline_then_close` hold for a concrete pipeline (GET, POST, GET … close,
+    then garbage), and its conclusion is what evaluating the model gives -/
+example :
+    serve exCfg ((([(exStatus, w200), (exPost, w405), (exStatus, w200)].map fun p => serHead p.1).flatten)
+        ++ (serHead exClose ++ [0, 1, 2]))
+      = [.resp w200, .resp w405, .resp w200, .resp w200] := by
+  have := HS_pipeline_then_close exCfg [(exStatus, w200), (exPost, w405), (exStatus, w200)] exClose w200 [0, 1, 2]
+    (by
+      intro p hp
+      simp only [List.mem_cons, List.mem_nil_iff, or_false] at hp
+      rcases hp with rfl | rfl | rfl
+      · exact ⟨exStatus_wf, by decide, by decide⟩
+      · exact ⟨exPost_wf, by decide, by decide⟩
+      · exact ⟨exStatus_wf, by decide, by decide⟩)
+    ⟨exClose_wf, by decide, by decide⟩
+  simpa using this
+
+/-- … and directly, with a malformed request in third place: two answers, hyper's 400, nothing more -/
+example :
+    serve exCfg (serHead exStatus ++ serHead exPost ++ [71, 123, 84, 32, 47, 13, 10, 13, 10] ++ serHead exStatus)
+      = [.resp w200, .resp w405, .err true 400] := by decide
+
+example : parseHead [60, 104, 116, 109, 108, 62] = .bad 400 := HS_garbage_400 60 _ (by decide) (by decide) (by decide)
+
+example : Out.resp w405 ∈ serve exCfg (serHead exPost) ∧ exPost.method ≠ sGET := by decide
+
+example : ∃ k : Codec, ∀ b, k.gunz (k.gz b) = some b := ⟨⟨fun b => 31 :: b, fun b => b.tail?, fun _ => rfl⟩, fun _ => rfl⟩
 
 end Rotonda.HttpServer
